@@ -246,7 +246,10 @@ func malformedMetadata(r *sim.R, wd *world, m *model.Store, dirTS int64) *sim.Vi
 			}
 			add(b, "bit flips")
 		case 1: // block count field
-			v := []uint64{0, 1, 1 << 20, 1 << 40, 1<<64 - 1, uint64(len(m.Ifaces["eth0"][model.DayOf(dirTS)].Blocks) + 1)}[r.T.Draw(6)]
+			nb := uint64(len(m.Ifaces["eth0"][model.DayOf(dirTS)].Blocks))
+			// fixed values, one more than the true count, the true count with one flipped bit, the
+			// true count plus a multiple of 2^61 (products with the per-block size wrap around)
+			v := []uint64{0, 1, 1 << 20, 1 << 40, 1<<64 - 1, nb + 1, nb ^ 1<<uint(r.T.Draw(64)), nb ^ 1<<uint(56+r.T.Draw(8)), nb + uint64(1+r.T.Draw(7))<<61}[r.T.Draw(9)]
 			for j := 0; j < 8; j++ {
 				b[8+j] = byte(v >> uint(56-8*j))
 			}
